@@ -69,6 +69,7 @@ class Preemptor:
         sim.log({"ev": "hold", "node": n.name, "file": p[1], "line": p[2], "occ": p[3], "us": self.hold_us})
         n.held = True
         sim.hold_node = n
+        held_thread, vt.CUR_THREAD[0] = vt.CUR_THREAD[0], None      # whatever runs during the hold runs on other threads
         end = sim.now_us + self.hold_us
         saved_end, saved_depth = sim.t_end, sim.depth
         sim.t_end, sim.depth = end, 0
@@ -96,6 +97,7 @@ class Preemptor:
         sim.t_end, sim.depth = saved_end, saved_depth
         n.held = False
         sim.hold_node = None
+        vt.CUR_THREAD[0] = held_thread
         sim.log({"ev": "resume", "node": n.name})
         sys.settrace(self._global)
 
